@@ -171,9 +171,14 @@ def run(ck):
                 call(it, cb, "clear_history")
                 return cb, ep, pv, last, acc, name, csvw
 
-            paths = [p for p in paths_of(prog, th, max_paths=60, sticky=True, stubs=STUBS) if p.outcome == "return" and gate_decisions(p)[:1] == [True]]
+            allp = paths_of(prog, th, max_paths=60, sticky=True, stubs=STUBS)
+            paths = [p for p in allp if p.outcome == "return" and gate_decisions(p)[:1] == [True]]
             ck.check(len(paths) >= 1, "C17.R2", cls + ":evaluation path", m.site(), "no returning path evaluates on a multiple of the period")
-            for p in paths[:1]:
+            for p in allp:
+                if p.outcome == "raise" and gate_decisions(p)[:1] == [True]:
+                    ck.violation("C17.R2", cls + ":history readable after two evaluations [%s]" % _c(p), getattr(p.value, "site", m.site()),
+                                 "after two evaluations (the second one possibly at the same epoch number) reading the history fails: %s" % (str(p.value)[:120],))
+            for p in paths:
                 it = p.interp
                 cb, ep, pv, last, acc, name, csvw = p.value
                 items = pv.obj.items if isinstance(pv, VList) else None
@@ -270,7 +275,7 @@ def run(ck):
 
                 paths = [p for p in paths_of(prog, th, max_paths=40, sticky=True) if p.outcome == "return" and gate_decisions(p)[:1] == [True]]
                 ck.check(len(paths) >= 1, "C17.R4", inst + ":saving path", ssite, "no returning path saves on a multiple of the period")
-                for p in paths[:1]:
+                for p in paths:
                     it = p.interp
                     cb, st, ep, md, n0 = p.value
                     saves = [c for c in it.ext_calls[n0:] if c[0] == "torch.save"]
